@@ -188,7 +188,8 @@ def rule_params_used(ctx: Ctx, rep: Report) -> None:
     n = 0
     for fi in sorted(ctx.prog.functions.values(), key=lambda f: f.qualname):
         local = fi.qualname.rsplit(".", 1)[1].lower()
-        if not (fi.qualname.startswith("btclib.psbt_signer.") or (any(fi.qualname.startswith(p_) for p_ in ("btclib.psbt.psbt.", "btclib.bip322.", "btclib.ecc.bms."))
+        in_signer_class = fi.qualname.startswith("btclib.psbt_signer.") and fi.cls is not None and any(w in fi.cls.name for w in ("Signer", "KeyManager"))
+        if not (in_signer_class or (fi.qualname.startswith("btclib.psbt_signer.") and fi.cls is None and any(w in local for w in ("sign", "finaliz", "sig_hash"))) or (any(fi.qualname.startswith(p_) for p_ in ("btclib.psbt.psbt.", "btclib.bip322.", "btclib.ecc.bms."))
                                                                     and any(w in local for w in ("sign", "finaliz", "sig_hash")))):
             continue  # the signing path: the signer classes, and what signs / finalizes / computes a digest
         body = [st for st in fi.node.body if not (isinstance(st, ast.Expr) and isinstance(st.value, ast.Constant))]
@@ -206,7 +207,7 @@ def rule_params_used(ctx: Ctx, rep: Report) -> None:
                 rep.ob(rule, f"{fi.qualname}({p_})", True, fi.where(), f"reviewed: {why}")
             else:
                 rep.ob(rule, f"{fi.qualname}({p_})", False, fi.where(), f"the parameter `{p_}` is accepted and never read: the caller's value is not in force, a default is")
-    rep.floor(rule, 60)
+    rep.floor(rule, 40)
 
 
 def rule_bip322_first_prevout(ctx: Ctx, rep: Report) -> None:
